@@ -34,6 +34,12 @@ type Cell struct {
 
 	// default styles this cell may legitimately have been painted with
 	okDefaults []tcell.Style
+	// content differed from the snapshot at some moment since the last MarkShown
+	touched bool
+	// widest display width the content had at any moment since the last MarkShown
+	maxWidth int
+	// not painted at the last Show (locked): the next Show of the unlocked cell paints it
+	needPaint bool
 }
 
 // Screen is the model.
@@ -61,7 +67,18 @@ func (s *Screen) In(x, y int) bool { return x >= 0 && y >= 0 && x < s.W && y < s
 // At returns the cell (must be in range).
 func (s *Screen) At(x, y int) *Cell { return &s.Cells[y*s.W+x] }
 
+// OnMerge, when set, is told about every ColorNone merge (new, old, merged).
+var OnMerge func(n, old, merged tcell.Style)
+
 func merge(n, old tcell.Style) tcell.Style {
+	m := merge0(n, old)
+	if OnMerge != nil && m != n {
+		OnMerge(n, old, m)
+	}
+	return m
+}
+
+func merge0(n, old tcell.Style) tcell.Style {
 	fg, bg, _ := n.Decompose()
 	ofg, obg, _ := old.Decompose()
 	if fg == tcell.ColorNone {
@@ -82,6 +99,34 @@ func (s *Screen) SetContent(x, y int, r rune, comb []rune, st tcell.Style) {
 	c.R = r
 	c.Comb = append([]rune(nil), comb...)
 	c.Style = merge(st, c.Style)
+	s.touch(x, y)
+}
+
+func (s *Screen) touch(x, y int) {
+	c := s.At(x, y)
+	if s.Changed(x, y) || c.R != c.sR || c.R == 0 {
+		// (a NUL <-> blank rewrite is not an observable change, but the library
+		// normalises NUL lazily and may repaint the blank once)
+		c.touched = true
+	}
+	if w := RuneWidth(c.R); w > c.maxWidth {
+		c.maxWidth = w
+	}
+}
+
+// Touched reports whether the cell's content differed from the last-shown
+// content at some moment since the last MarkShown (it may be equal again now).
+func (s *Screen) Touched(x, y int) bool { return s.At(x, y).touched || s.Changed(x, y) }
+
+// MaxWidth is the widest display width the cell's content had since the last
+// MarkShown (including the current content).
+func (s *Screen) MaxWidth(x, y int) int {
+	c := s.At(x, y)
+	w := RuneWidth(c.R)
+	if c.maxWidth > w {
+		w = c.maxWidth
+	}
+	return w
 }
 
 // Fill stores r/st in every cell.
@@ -91,6 +136,7 @@ func (s *Screen) Fill(r rune, st tcell.Style) {
 		c.R = r
 		c.Comb = nil
 		c.Style = merge(st, c.Style)
+		s.touch(i%s.W, i/s.W)
 	}
 }
 
@@ -154,6 +200,33 @@ func (s *Screen) ExpectedRow(y int) []Vis {
 	return out
 }
 
+// SnapRow is ExpectedRow computed from the content recorded at the last
+// MarkShown (what the display showed after the previous Show).
+func (s *Screen) SnapRow(y int) []Vis {
+	out := make([]Vis, s.W)
+	for x := 0; x < s.W; {
+		c := s.At(x, y)
+		r := c.sR
+		if !c.sValid {
+			r = 0
+		}
+		w := RuneWidth(r)
+		v := Vis{R: r, Comb: c.sComb, Width: w, Style: c.sStyle}
+		if w == 0 || r < ' ' {
+			v.R, v.Width, v.Blank = ' ', 1, true
+		}
+		if v.Width == 2 && x == s.W-1 {
+			v.R, v.Width, v.Blank, v.Comb = ' ', 1, true, nil
+		}
+		out[x] = v
+		if v.Width == 2 {
+			out[x+1] = Vis{Hidden: true, Width: 0}
+		}
+		x += v.Width
+	}
+	return out
+}
+
 // Changed reports whether the stored content of (x,y) differs from what it was
 // at the last MarkShown.
 func (s *Screen) Changed(x, y int) bool {
@@ -161,7 +234,7 @@ func (s *Screen) Changed(x, y int) bool {
 	if !c.sValid {
 		return true
 	}
-	if c.R != c.sR || c.Style != c.sStyle || len(c.Comb) != len(c.sComb) {
+	if norm(c.R) != norm(c.sR) || c.Style != c.sStyle || len(c.Comb) != len(c.sComb) {
 		return true
 	}
 	for i := range c.Comb {
@@ -192,10 +265,16 @@ func (s *Screen) MarkShown(full bool) {
 	for i := range s.Cells {
 		c := &s.Cells[i]
 		if c.Locked {
-			// locked cells are not painted: nothing is recorded for them
+			// locked cells are not painted; their logical content is still
+			// recorded (it decides what is covered by wide runes), and they are
+			// repainted by the first Show after the unlock
+			c.sR, c.sComb, c.sStyle, c.sValid = c.R, c.Comb, c.Style, true
+			c.touched, c.maxWidth = false, 0
+			c.needPaint = true
 			continue
 		}
-		changed := !c.sValid || c.R != c.sR || c.Style != c.sStyle || !eq(c.Comb, c.sComb)
+		changed := c.needPaint || !c.sValid || norm(c.R) != norm(c.sR) || c.Style != c.sStyle || !eq(c.Comb, c.sComb)
+		c.needPaint = false
 		if full || changed {
 			c.okDefaults = c.okDefaults[:0]
 		}
@@ -209,6 +288,7 @@ func (s *Screen) MarkShown(full bool) {
 			c.okDefaults = append(c.okDefaults, s.Default)
 		}
 		c.sR, c.sComb, c.sStyle, c.sValid = c.R, c.Comb, c.Style, true
+		c.touched, c.maxWidth = false, 0
 	}
 }
 
@@ -232,6 +312,14 @@ func (s *Screen) Resolved(x, y int) []tcell.Style {
 		return []tcell.Style{s.Default}
 	}
 	return c.okDefaults
+}
+
+// norm: a cell never written (rune 0) shows, and is tracked, as a blank.
+func norm(r rune) rune {
+	if r == 0 {
+		return ' '
+	}
+	return r
 }
 
 func eq(a, b []rune) bool {
